@@ -13,7 +13,9 @@ from ..src import AnalysisError, loc, norm, own_nodes
 EM = "tdgl.em"
 SOLN = "tdgl.solution.solution"
 TECH = ("loop-nest summarisation of the numba Biot-Savart and distance kernels against the documented integrals; degree check for "
-        "linearity; pint model for SI prefactors and H<->B conversion; value numbering of the loop potential")
+        "linearity; pint model for SI prefactors and H<->B conversion; value numbering of the loop potential; cdist dispatch followed for "
+        "nine (dimension, metric) pairs; unit conversion of every returned part along reaching definitions; may-reach flows for the "
+        "decomposition into parts")
 
 
 def bs_spec(T, ps):
